@@ -21,7 +21,11 @@ fn tick() {
 #[derive(Clone, Debug, Serialize, Deserialize, PartialEq, Eq)]
 pub enum JOp {
     Create { path: String, id: u64 },
-    Append { id: u64, data: Vec<u8> },
+    Append {
+        id: u64,
+        #[serde(with = "crate::case::hexbytes")]
+        data: Vec<u8>,
+    },
     Rename { from: String, to: String },
     Remove { path: String },
     RemoveAll { path: String },
